@@ -72,7 +72,17 @@ func Execute(conf Conf, rng *rand.Rand, script Script, mon Monitor, maxOps int) 
 		if strings.HasPrefix(line, "dump") || strings.HasPrefix(line, "init") {
 			continue
 		}
-		final, res := w.Apply(line)
+		var final, res string
+		if f := strings.Fields(line); len(f) > 3 && f[0] == "crash" {
+			// replay of a crash experiment: die after k apiserver calls + j provider requests (in the op's own order)
+			var crashed bool
+			final, res, crashed = w.ApplyCrash(strings.Join(f[3:], " "), atoiDef(f[1])+atoiDef(f[2]))
+			if !crashed {
+				final = line
+			}
+		} else {
+			final, res = w.Apply(line)
+		}
 		t.Lines = append(t.Lines, final)
 		t.Impl = append(t.Impl, res)
 		t.Ops = append(t.Ops, final)
